@@ -96,7 +96,7 @@ pub static APT_SOURCE: &[FieldSpec] = &[
     f("Description", false, MULTI, None),
     f("Version", true, VERSIONS, Some("not a version!")),
     f("Package", true, &["cvsd", "foo"], None),
-    f("Binary", false, &["cvsd", "a, b, c", "libabsl-dev, libabsl20240722"], None),
+    f("Binary", false, &["cvsd", "a, b, c", "libabsl-dev, libabsl20240722", "a, b,\nc", "a,b", "x,\ny,\nz"], None),
     f("Maintainer", false, &["Arthur de Jong <adejong@debian.org>"], None),
     f("Build-Depends", false, &["debhelper (>= 9), po-debconf"], None),
     f("Build-Depends-Indep", false, RELS, Some("a (")),
@@ -198,7 +198,7 @@ pub static COPYRIGHT_LICENSE: &[FieldSpec] = &[
 ];
 
 pub static DEP3: &[FieldSpec] = &[
-    f("Origin", false, &["upstream, commit:abc123", "vendor, https://e.org/p.patch", "https://e.org/x", "commit:deadbeef", "backport, 2.0"], None),
+    f("Origin", false, &["upstream, commit:abc123", "vendor, https://e.org/p.patch", "https://e.org/x", "commit:deadbeef", "backport, 2.0", "vendor", "upstream"], None),
     f("Forwarded", false, &["no", "not-needed", "https://lists.example.com/1234.html"], None),
     f("Author", false, &["John Doe <johndoe-guest@users.alioth.debian.org>"], None),
     f("Reviewed-by", false, &["Ann <a@e.org>"], None),
@@ -335,6 +335,10 @@ pub fn canon_text(kind: &str, field: &str, v: &str) -> String {
             "no" => "false".to_string(),
             o => o.to_string(),
         };
+    }
+    // the Sources `Binary` list may be folded or written without blanks; the type prints it "a, b, c"
+    if kind.ends_with("apt::Source") && field == "Binary" {
+        return v.split(|c: char| c == ',' || c.is_whitespace()).filter(|x| !x.is_empty()).collect::<Vec<_>>().join(", ");
     }
     v.to_string()
 }
